@@ -51,6 +51,30 @@ func c28Variants(tp *netsim.Topo, thorough bool) []c28Variant {
 		vs = append(vs, c28Variant{Name: fmt.Sprintf("2gen/new:as%d:maxexp=10", a), Old: mod(nil), OldFirst: a%2 == 0,
 			New: mod(func(c *netsim.Topo) { c.ASes[a].MaxExp = 10 })})
 	}
+	// segments carrying the detachable EPIC extension (unsigned, per AS entry: authenticators of the hop entry and of
+	// every peer entry): on every AS, on every second AS, on a single AS, and generations with / without it mixed
+	epic := func(on func(a int) bool) func(c *netsim.Topo) {
+		return func(c *netsim.Topo) {
+			for a := range c.ASes {
+				c.ASes[a].EPIC = on(a)
+			}
+		}
+	}
+	everyAS := func(int) bool { return true }
+	vs = append(vs, c28Variant{Name: "epic:all", New: mod(epic(everyAS))})
+	vs = append(vs, c28Variant{Name: "epic:even-ases", New: mod(epic(func(a int) bool { return a%2 == 0 }))})
+	vs = append(vs, c28Variant{Name: "epic:odd-ases", New: mod(epic(func(a int) bool { return a%2 == 1 }))})
+	for a := range tp.ASes {
+		vs = append(vs, c28Variant{Name: fmt.Sprintf("epic:only-as%d", a), New: mod(epic(func(x int) bool { return x == a }))})
+	}
+	vs = append(vs, c28Variant{Name: "2gen/new:epic:all", New: mod(epic(everyAS)), Old: mod(nil), OldFirst: true})
+	vs = append(vs, c28Variant{Name: "2gen/old:epic:all", New: mod(nil), Old: mod(epic(everyAS))})
+	if thorough {
+		vs = append(vs, c28Variant{Name: "epic:all/superset", New: mod(epic(everyAS)), Superset: true})
+		for a := range tp.ASes {
+			vs = append(vs, c28Variant{Name: fmt.Sprintf("epic:all-but-as%d", a), New: mod(epic(func(x int) bool { return x != a }))})
+		}
+	}
 	// the older generation predates the last peering link: its segments do not announce it (a peering link announced
 	// by one side only must not be used when generations are mixed)
 	if nl := len(tp.Links); nl > 0 && tp.Links[nl-1].Kind == netsim.PeerLink {
@@ -111,7 +135,7 @@ type c28SegSet struct {
 
 // c28Beacon builds the network(s) of the variant and runs the real beaconing. Must run inside the bubble.
 func c28Beacon(v c28Variant, maxLen int) (*c28SegSet, error) {
-	n, err := netsim.Build(v.New)
+	n, err := netsim.BuildControlPlane(v.New)
 	if err != nil {
 		return nil, fmt.Errorf("build: %w", err)
 	}
@@ -121,7 +145,7 @@ func c28Beacon(v c28Variant, maxLen int) (*c28SegSet, error) {
 	s := &c28SegSet{N: n, Up: map[int][]*seg.PathSegment{}}
 	gens := []*netsim.Net{n}
 	if v.Old != nil {
-		o, err := netsim.Build(v.Old)
+		o, err := netsim.BuildControlPlane(v.Old)
 		if err != nil {
 			return nil, fmt.Errorf("build (old generation): %w", err)
 		}
